@@ -49,6 +49,43 @@ func init() {
 // goroutine of the library ends only that child and is reported with the seed of the history it was
 // running), runs the monitors on each and emits them as correspondence cases.
 func runStreamHistories(c *Ctx, name string, n int, maker string, nontrivial func(h *SHistory) bool, mons ...StreamMonitor) []*SHistory {
+	hs, seeds := collectHistories(c, n, maker)
+	var cases []gal.Term
+	var reps []string
+	var got []*SHistory
+	for i, h := range hs {
+		if h == nil {
+			continue
+		}
+		got = append(got, h)
+		key := J(h.Ops)
+		c.Eval(key, nontrivial == nil || nontrivial(h))
+		c.CountN("ops", len(h.Ops))
+		for _, op := range h.Ops {
+			c.Count("op:" + op.Kind)
+		}
+		for _, os := range h.Outs {
+			for _, o := range os {
+				c.Count("out:" + o.Kind)
+			}
+		}
+		for _, m := range mons {
+			m(c, h)
+		}
+		cases = append(cases, h.caseTerm())
+		reps = append(reps, J(map[string]interface{}{"kind": name, "maker": maker, "seed": seeds[i], "cfg": h.Cfg, "initial_store": h.Initial, "ops": h.Ops, "observed": h.Outs, "final": h.Digest}))
+		if len(got) <= 2 {
+			c.Sample(map[string]interface{}{"cfg": h.Cfg, "initial_store": h.Initial, "ops": h.Ops, "observed_outputs": h.Outs})
+		}
+	}
+	c.Emit(name, "per-op outputs and final state of the real stream vs Model/Stream.v run", []string{"Base.Bytes", "Model.Stream", "Corr.CorrStream"},
+		"hist", "chk_hist", cases, reps, 40)
+	return got
+}
+
+// collectHistories generates n histories with the named maker in child processes; a history whose process died is nil
+// (and reported).
+func collectHistories(c *Ctx, n int, maker string) ([]*SHistory, []int64) {
 	seeds := make([]int64, n)
 	for i := range seeds {
 		seeds[i] = c.Rng.Int63()
@@ -104,37 +141,7 @@ func runStreamHistories(c *Ctx, name string, n int, maker string, nontrivial fun
 			a.Seeds, a.Idx = a.Seeds[next:], a.Idx[next:]
 		}
 	})
-	var cases []gal.Term
-	var reps []string
-	var got []*SHistory
-	for i, h := range hs {
-		if h == nil {
-			continue
-		}
-		got = append(got, h)
-		key := J(h.Ops)
-		c.Eval(key, nontrivial == nil || nontrivial(h))
-		c.CountN("ops", len(h.Ops))
-		for _, op := range h.Ops {
-			c.Count("op:" + op.Kind)
-		}
-		for _, os := range h.Outs {
-			for _, o := range os {
-				c.Count("out:" + o.Kind)
-			}
-		}
-		for _, m := range mons {
-			m(c, h)
-		}
-		cases = append(cases, h.caseTerm())
-		reps = append(reps, J(map[string]interface{}{"kind": name, "maker": maker, "seed": seeds[i], "cfg": h.Cfg, "initial_store": h.Initial, "ops": h.Ops, "observed": h.Outs, "final": h.Digest}))
-		if len(got) <= 2 {
-			c.Sample(map[string]interface{}{"cfg": h.Cfg, "initial_store": h.Initial, "ops": h.Ops, "observed_outputs": h.Outs})
-		}
-	}
-	c.Emit(name, "per-op outputs and final state of the real stream vs Model/Stream.v run", []string{"Base.Bytes", "Model.Stream", "Corr.CorrStream"},
-		"hist", "chk_hist", cases, reps, 40)
-	return got
+	return hs, seeds
 }
 
 func ignoredMonitor(c *Ctx, h *SHistory) {
